@@ -206,6 +206,7 @@ let exec (c : sx) : sx = match c with
   | L [A "labelfair"; k; f] -> let (k', a) = label_fair_states (to_kripke k) (to_list to_nats f) in L [of_kripke k'; of_str a]
   | L [A "lnot"; f] -> of_form (lNot (to_form f))
   | L [A "restrict"; f] -> of_form (restrict (to_form f))
+  | L [A "restrictltl"; f] -> of_form (restrict_ltl (to_form f))
   | L [A "restrictctl"; f] -> of_option of_form (restrict_ctl (to_form f))
   | L [A "unfairctls"; a; f] -> of_form (unfair_ctls (to_str a) (to_form f))
   | L [A "unfairctl"; a; f] -> of_option of_form (unfair_ctl (to_str a) (to_form f))
